@@ -74,7 +74,7 @@ class Module:
             code = ln.split('#')[0] if '"' not in ln and "'" not in ln else ln
             if not buf:
                 start = k
-            buf = (buf + ' ' + ln.strip()) if buf else ln
+            buf = ((buf[:-1] if buf.rstrip().endswith('\\') else buf).rstrip('\\ ') + ' ' + ln.strip()) if buf else ln
             depth += sum(code.count(c) for c in '([{') - sum(code.count(c) for c in ')]}')
             if depth <= 0 and not code.rstrip().endswith('\\'):
                 logical.append((start, buf))
@@ -116,7 +116,7 @@ class Module:
                 types = {}
                 for p in self._split_params(params):
                     p0 = p.strip()
-                    mm = re.match(r'(np\.ndarray\[[^\]]*\]|' + self.CTYPES + r'(?:\[[^\]]*\])?)\s+(\w+)(\s*=.*)?$', p0)
+                    mm = re.match(r'(np\.ndarray\[[^\]]*\]|' + self.CTYPES + r'(?:\[[^\]]*\])?|[A-Za-z_][\w.]*(?:\[[^\]]*\])?)\s+(\w+)(\s*=.*)?$', p0)
                     if mm:
                         types[mm.group(2)] = mm.group(1)
                         newp.append(mm.group(2) + (mm.group(3) or ''))
@@ -132,7 +132,7 @@ class Module:
                 cur_func = name
                 out.append(' ' * ind + 'def %s(%s):' % (name, ', '.join(newp)))
                 continue
-            m = re.match(r'cdef\s+(np\.ndarray\[[^\]]*\]|' + self.CTYPES + r'(?:\[[^\]]*\])?)\s+(.*)$', s)
+            m = re.match(r'cdef\s+(np\.ndarray\[[^\]]*\]|' + self.CTYPES + r'(?:\[[^\]]*\])?|[A-Za-z_][\w.]*(?:\[[^\]]*\])?)\s+(.*)$', s)
             if m:
                 decl = m.group(2)
                 self.drops.append((k + 1, 'cdef %s' % m.group(1)))
@@ -149,7 +149,7 @@ class Module:
             if re.match(r'with\s+nogil\s*:', s):
                 self.drops.append((k + 1, 'with nogil')); out.append(' ' * ind + 'if True:'); continue
             if 'prange(' in s:
-                m = re.search(r'prange\((.*)\)\s*:', s)
+                m = re.search(r'prange\((.*)\)\s*:', ln)
                 args = self._split_params(m.group(1))
                 pos = [a for a in args if '=' not in a]
                 kws = [a.strip() for a in args if '=' in a]
